@@ -91,6 +91,19 @@ func (s *trieSys) OpClass(o seqmc.Op) string {
 
 func (s *trieSys) Apply(o seqmc.Op, c *seqmc.Ctx) {
 	switch o.N {
+	case "LongestPrefix":
+		q := o.S[0]
+		got, err := s.t.LongestPrefix(q)
+		want := ""
+		for m := range s.model {
+			if strings.HasPrefix(q, m) && len(m) > len(want) {
+				want = m
+			}
+		}
+		if err != nil || got != want {
+			c.Fail("Trie.LongestPrefix/wrong", "LongestPrefix(%q) = (%q,%v), want %q (stored %q)", q, got, err, want, s.sortedKeys(""))
+		}
+		return
 	case "Get", "Contains": // query operations (only in the alphabet when queries turned out to be stateful)
 		q := o.S[0]
 		want, present := s.model[q]
@@ -115,6 +128,11 @@ func (s *trieSys) QueryOps() []seqmc.Op {
 	for _, q := range s.queries {
 		if len(q) >= 1 && len(q) <= 2 {
 			ops = append(ops, seqmc.Op{N: "Get", S: []string{q}}, seqmc.Op{N: "Contains", S: []string{q}})
+		}
+		if len(q) >= 1 && len(q) <= 3 {
+			// a lookup that remembers its last question answers the SAME question again later: asked
+			// alone, with Puts in between (the observer suite asks many questions in a row)
+			ops = append(ops, seqmc.Op{N: "LongestPrefix", S: []string{q}})
 		}
 	}
 	return ops
